@@ -131,8 +131,14 @@ class Case:
                                                          self.pool, self.long, self.long2, self.implicit)
 
 
-def lex_src(n):
-    return "%%\n" + "".join("r%d 'T%d'\n" % (i, i) for i in range(n))
+def lex_src(n, kind=0):
+    """n rules; kind 0: all named, 1: the last rule is an unnamed (skip) rule, 2: every third rule unnamed.
+    Every rule takes an id from its position, named or not, so the guard and the ids are the same for all kinds."""
+    out = ["%%\n"]
+    for i in range(n):
+        unnamed = (kind == 1 and i == n - 1) or (kind == 2 and i % 3 == 2)
+        out.append(("r%d ;\n" % i) if unnamed else ("r%d 'T%d'\n" % (i, i)))
+    return "".join(out)
 
 
 def parse_kv(s):
@@ -498,8 +504,10 @@ def run(ctx):
     ctx.oblige(ndiff == 0, "correspondence-grammar-table")
 
     # ---- lexer rule ids ----
-    lex_ns = [253, 254, 255, 256, 257, 258] + ([] if ctx.quick else [65534, 65535, 65536, 65537])
-    ll = ["L %d %s" % (w, hx(lex_src(n))) for n in lex_ns for w in WIDTHS]
+    lex_cfg = [(n, 0) for n in [253, 254, 255, 256, 257, 258]] + [(n, k) for n in [255, 256, 257, 258] for k in (1, 2)] + \
+              ([] if ctx.quick else [(n, k) for n in [65534, 65535, 65536, 65537] for k in (0, 1)])
+    lex_ns = [n for n, _ in lex_cfg]
+    ll = ["L %d %s" % (w, hx(lex_src(n, k))) for n, k in lex_cfg for w in WIDTHS]
     lex_r = core.run_lines([exe_r], ll, timeout=3000, env=env)
     # debug profile only for the 8-bit-sized lexers (65 k rules: the duplicate-name scan is quadratic)
     lex_d_small = core.run_lines([exe_d], [l for l, n in zip(ll, [n for n in lex_ns for w in WIDTHS]) if n < 1000], timeout=3000, env=env)
@@ -510,7 +518,8 @@ def run(ctx):
     for k, (n, w) in enumerate([(n, w) for n in lex_ns for w in WIDTHS]):
         a, d, m = lex_r[k], lex_d[k], parse_kv(lm[k])
         ref = lex_r[(k // 3) * 3 + 2]
-        base = {"lexer_rules": n, "width": w, "impl": a, "impl_u32": ref, "model": lm[k],
+        base = {"lexer_rules": n, "unnamed_rules": ["none", "last", "every third"][lex_cfg[k // 3][1]], "width": w, "impl": a,
+                "impl_u32": ref, "model": lm[k],
                 "replay_cmd": "echo 'L %d <hex of %d rules>' | .work/target/release/c20" % (w, n)}
         kv = parse_kv(a)
         if a.startswith("L REFUSED"):
@@ -522,7 +531,7 @@ def run(ctx):
         if d is not None and a != d:
             cls = "OtherPanic"
         ctx.count("lex_%s_w%d" % (cls, w))
-        ctx.case("L %d w%d" % (n, w), abs(n - (1 << w)) <= 3, dict(base, outcome=cls))
+        ctx.case("L %d k%d w%d" % (n, lex_cfg[k // 3][1], w), abs(n - (1 << w)) <= 3, dict(base, outcome=cls))
         if cls in ("Wrapped", "OtherPanic"):
             ctx.violation(dict(base, outcome=cls, why="lexer rule ids wrapped / differ from u32 / debug differs: debug=%s" % (d or "")[:200]))
         exp_ok = m.get("l") == "PASS"
